@@ -19,6 +19,7 @@ class SimLine:
         self.delay = delay
         self.chunker = chunker  # callable(direction, data) -> list of (delay, bytes)
         self.taps: list = []
+        self.sinks: dict = {}  # port name -> callable(bytes): harness-side receiver (kernel context)
         self.corrupt = None  # callable(direction, offset_in_stream, byte) -> byte
         self.sent = {a: 0, b: 0}
         self.last_deliver = {a: 0.0, b: 0.0}
@@ -44,6 +45,10 @@ class SimLine:
             k.schedule_at(t, self._deliver, self.other(src), piece)
 
     def _deliver(self, dst, piece):
+        sink = self.sinks.get(dst)
+        if sink is not None:
+            sink(piece)
+            return
         port = self.ports.get(dst)
         if port is None or not port.is_open:
             return
